@@ -332,7 +332,10 @@ XDeviations == {
   "schema.optional_not_nullable",          \* the server reads null as "not set"; the schema refuses null
   "schema.bytes_length_on_encoded_text",   \* length bounds of Bytes are applied to the base64 text
   "schema.response_cookie_value_schema",   \* a response cookie is documented as a Set-Cookie header with the schema of the cookie VALUE
-  "schema.error_response_media_type" }     \* declared errors are documented as application/vnd.goa.error, sent as application/json
+  "schema.error_response_media_type",      \* declared errors are documented as application/vnd.goa.error, sent as application/json
+  "schema.dedup_ignores_validations" }     \* components.schemas: a body type is replaced by a structurally equal type of another method,
+                                           \* whatever the validations of the two (a defect of the whole design: seen from one exchange the
+                                           \* rules applied to a body are then somebody else's)
 \* (plus the transport deviations of HTTPTransport: param.empty_string_is_absent, validate.absent_collection_length,
 \*  client.path_not_escaped, mux.double_unescape, response.header_array_joined, cookie.value_sanitized)
 
@@ -351,10 +354,14 @@ B64(n) == 4 * ((n + 2) \div 3)
 SchemaTypeOK(a, c) == CASE c.s = "negu" -> Dev("schema.uint_minimum_missing")
                         [] c.s \in {"frac", "text"} -> FALSE
                         [] OTHER -> TRUE
-RuleDocumented(a) == /\ ~(a.nest = "mapkey" /\ Dev("schema.map_key_rule_undocumented"))
+\* the nestings this part knows (lib/Values.tla may grow others: they are not enumerated here until they are listed)
+XNests == {"direct", "alias", "nested", "elem", "mapkey", "mapval", "nested_mapkey", "nested_elem", "elem_nested", "mapval_nested", "mapkey_alias"}
+KeyNests == {"mapkey", "nested_mapkey", "mapkey_alias"}
+RuleDocumented(a) == /\ ~(a.nest \in KeyNests /\ Dev("schema.map_key_rule_undocumented"))
                      /\ ~(a.nest = "mapval" /\ a.rule \in {"cminlen", "cmaxlen"} /\ Dev("schema.map_length_undocumented"))
 \* deviations under which the verdict of the schema on a present value is not determined by the design's rule
-Blurred(a, c) == a.kind = "bytes" /\ a.rule \in {"minlen", "maxlen"} /\ Dev("schema.bytes_length_on_encoded_text")
+Blurred(a, c) == \/ a.kind = "bytes" /\ a.rule \in {"minlen", "maxlen"} /\ Dev("schema.bytes_length_on_encoded_text")
+                 \/ a.loc = "body" /\ Dev("schema.dedup_ignores_validations")
 SchemaValueOK(a, c) ==
   IF EmptyParam(a, c) /\ Dev("schema.empty_value_allowed") THEN {TRUE}
   ELSE IF Blurred(a, c) THEN BOOLEAN
@@ -365,7 +372,7 @@ SchemaAttrOK(a, w, flag) ==
   ELSE SchemaValueOK(a, Seen(a, w))
 \* the set of verdicts the schema may give on the request (a singleton unless a blurring deviation applies)
 SchemaReqVerdicts ==
-  IF ~Routed THEN {FALSE}                                  \* no operation matches the request line
+  IF ~Routed THEN BOOLEAN                                  \* the path is not the one of the operation: a router may or may not match it
   ELSE {\A i \in PIdx : f[i] : f \in {g \in [PIdx -> BOOLEAN] : \A i \in PIdx : g[i] \in SchemaAttrOK(cfg.pa[i], wire[i], IF i = 1 THEN xflag ELSE "none")}}
 
 RespBlurred(a, w) ==
@@ -385,7 +392,7 @@ XTypeReject ==
   /\ pc' = "cswitch" /\ status' = 400 /\ errname' = "invalid_field_type"
   /\ UNCHANGED <<cfg, pv, rv, wire, delivered, invoked, rwire, returned, cerr>>
 XInit ==
-  /\ \E a \in AttrSpace : \E v \in PayloadVals(a) \cup MalVals(a), fl \in {"none", "null"} :
+  /\ \E a \in {x \in AttrSpace : x.nest \in XNests} : \E v \in PayloadVals(a) \cup MalVals(a), fl \in {"none", "null"} :
        /\ (fl = "null" => v = Absent /\ a.loc = "body" /\ a.nest = "direct" /\ CanBeAbsent(a))
        /\ cfg = [pa |-> <<a>>, ra |-> <<FixedAttr>>, tagged |-> FALSE, devs |-> Deviations] /\ pv = <<v>> /\ xflag = fl
   /\ rv = <<FixedVal>> /\ pc = "encode" /\ wire = <<>> /\ delivered = <<>> /\ invoked = FALSE /\ status = 0 /\ errname = "none"
